@@ -16,25 +16,29 @@
 (*        pattern p (items = UTF-8 bytes of each pattern character),       *)
 (*        text = FormatTime(instant), (rday, rms) = Parse(text), err =     *)
 (*        Parse returned an error, text2 = FormatTime(Parse(text)).        *)
+(* Every Obs / RT event carries n = its position in the history; the trace *)
+(* spec counts (variable k), so a lost event is a rejected trace.          *)
 (* A panic is logged as event "Panic", for which there is no action.       *)
 (***************************************************************************)
 EXTENDS DateFormat, TraceLib
 
-VARIABLE l
-tvars == <<vars, l>>
+VARIABLES l, k
+tvars == <<vars, l, k>>
 
-TraceInit == Init /\ l = 1 /\ HwmInit
+TraceInit == Init /\ l = 1 /\ k = 0 /\ HwmInit
 
 Step(e) == IsEv(l, e) /\ l' = l + 1
+\* the event is the next one of its history
+Numbered == Has(Trace[l], "n") /\ Trace[l].n = k + 1 /\ k' = k + 1
 
-TraceReset == Step("Reset") /\ now' = Origin /\ obs' = Helpers(Origin)
+TraceReset == Step("Reset") /\ now' = Origin /\ obs' = Helpers(Origin) /\ k' = 0
 
 ObsFields == {"day", "ms", "ymd", "dt", "ts", "ymdhms", "hms", "hm", "wd", "du", "mu", "fu"}
 Logged(e) == [ymd |-> e.ymd, dt |-> e.dt, ts |-> e.ts, ymdhms |-> e.ymdhms, hms |-> e.hms, hm |-> e.hm,
               wd |-> e.wd, du |-> e.du, mu |-> e.mu, fu |-> e.fu]
 
 TraceObs ==
-  /\ Step("Obs")
+  /\ Step("Obs") /\ Numbered
   /\ LET e == Trace[l] IN
        /\ \A f \in ObsFields : Has(e, f)
        /\ Observe([day |-> e.day, ms |-> e.ms])
@@ -48,7 +52,7 @@ TraceObs ==
 RTFields == {"p", "day", "ms", "text", "err", "rday", "rms", "text2"}
 
 TraceRT ==
-  /\ Step("RT")
+  /\ Step("RT") /\ Numbered
   /\ LET e == Trace[l] IN
        /\ \A f \in RTFields : Has(e, f)
        /\ LET t == [day |-> e.day, ms |-> e.ms]
